@@ -88,6 +88,10 @@ def extract(config="W", repo=REPO, quiet=False):
     out = os.path.join(CACHE, "facts", th, config)
     done = os.path.join(out, "DONE")
     if os.path.exists(done):
+        try:
+            os.utime(os.path.dirname(out))  # LRU: keep the trees that are in use
+        except OSError:
+            pass
         return out, {"tree_hash": th, "files_hashed": nfiles, "cached": True, "extract_s": 0.0}
     lock_path = os.path.join(CACHE, "extract.lock")
     with open(lock_path, "w") as lk:
